@@ -1221,7 +1221,10 @@ class NLDFSettingsVI(NLDFSettings):
         ) in self.l1_feat_dots:
             spec1 = "grad_rho" if j == -1 else self.l1_feat_specs[j]
             spec2 = "grad_rho" if k == -1 else self.l1_feat_specs[k]
-            usps.append(usp0 + SPEC_USPS[spec1] + SPEC_USPS[spec2])
+            # every nonlocal vector in the dot product carries the rho_mult factor
+            # (the semilocal density gradient, index -1, does not)
+            nvec = (j != -1) + (k != -1)
+            usps.append(nvec * usp0 + SPEC_USPS[spec1] + SPEC_USPS[spec2])
         return usps
 
     def ueg_vector(self, rho=1.0):
@@ -1509,7 +1512,10 @@ class NLDFSettingsVIJ(NLDFSettings):
         ) in self.l1_feat_dots:
             spec1 = "grad_rho" if j == -1 else self.l1_feat_specs[j]
             spec2 = "grad_rho" if k == -1 else self.l1_feat_specs[k]
-            usps.append(usp0 + SPEC_USPS[spec1] + SPEC_USPS[spec2])
+            # every nonlocal vector in the dot product carries the rho_mult factor
+            # (the semilocal density gradient, index -1, does not)
+            nvec = (j != -1) + (k != -1)
+            usps.append(nvec * usp0 + SPEC_USPS[spec1] + SPEC_USPS[spec2])
         return usps
 
     def ueg_vector(self, rho=1.0):
